@@ -300,7 +300,7 @@ func init() {
 	nDirected := drv.NumCancelVariants * 9 * 7
 	register(&Check{
 		ID: "C04", Level: "exploration",
-		Rule:        "the instant is the quantifier: directed sweep = 10 cancel variants (cancel delivered exactly between the scheduler's launch of a task and the runner's entry, so that the runner refuses the task; loop parked at an iteration boundary through hook H1 with the cancel fully delivered before release / racing the release; task inside Run; task inside Run while a graceful Shutdown is waiting for the job; racing the last task's exit; waiting behind a busy slot; waiting with pending delay; waiting with expired delay behind a busy slot; 3 concurrent duplicate cancels) x 9 graph shapes x every boundary 0..6 (number of tasks finished before), delivery observed through the runner's Cancel events; repeated with the REAL taskctl.TaskRunner and shell scripts (marker files prove which tasks executed); plus cancel-heavy conformance histories with slow-to-stop tasks. Oracles: canceled waiting job never runs a task; running job's runner is told to stop; no task begins after the stop was delivered; terminal report canceled, never plain success while tasks were left unrun or stopped; cancel result classes (second cancel = no-op, unknown id = not found, finished job unchanged). A situation is (variant, real?, #tasks, #done at the boundary, #running at park)",
+		Rule:        "the instant is the quantifier: directed sweep = 11 cancel variants (a task becoming ready while a sibling of the canceled job is still stopping: the loop must launch nothing once it has seen the stop (hook H1); cancel delivered exactly between the scheduler's launch of a task and the runner's entry, so that the runner refuses the task; loop parked at an iteration boundary through hook H1 with the cancel fully delivered before release / racing the release; task inside Run; task inside Run while a graceful Shutdown is waiting for the job; racing the last task's exit; waiting behind a busy slot; waiting with pending delay; waiting with expired delay behind a busy slot; 3 concurrent duplicate cancels) x 9 graph shapes x every boundary 0..6 (number of tasks finished before), delivery observed through the runner's Cancel events; repeated with the REAL taskctl.TaskRunner and shell scripts (marker files prove which tasks executed); plus cancel-heavy conformance histories with slow-to-stop tasks. Oracles: canceled waiting job never runs a task; running job's runner is told to stop; no task begins after the stop was delivered; terminal report canceled, never plain success while tasks were left unrun or stopped; cancel result classes (second cancel = no-op, unknown id = not found, finished job unchanged). A situation is (variant, real?, #tasks, #done at the boundary, #running at park)",
 		Assumptions: []string{seqAssumption, "a cancel that loses the race against natural completion (every task ran to its end unstopped) may be reported as success: the oracle is silent there"},
 		Cases: func(t string) int {
 			return nDirected + tierN(t, 108, 1296) + tierN(t, 600, 20000) + len(drv.ProcShapes()) + tierN(t, 0, nDirected*19)
